@@ -7,6 +7,7 @@ import (
 	"sort"
 	"strconv"
 	"strings"
+	"sync"
 
 	"github.com/Shopify/sarama"
 	"github.com/Shopify/sarama/mocks"
@@ -816,4 +817,161 @@ func consumerCase(s cscript) (string, cf.Sidecar) {
 	}
 	term := fmt.Sprintf("{| cc_acts := %s; cc_obs := %s |}", cf.List(acts), cf.List(os))
 	return term, cf.Sidecar{Case: map[string]interface{}{"script": s, "observed": obs}, Kind: "consumer", Nontrivial: nontrivial, Monitor: mon}
+}
+
+// ---------- concurrent yielders (adversary change C20-11) ----------
+// G goroutines call YieldMessage on ONE partition consumer at the same time (legal: the mock serialises them with its
+// mutex); afterwards the test goroutine reads everything. Whatever the interleaving, the run must be equivalent to the
+// sequential script in which the messages are yielded in the order in which they were delivered (its linearisation):
+// delivered offsets are consecutive from the expected offset and the high-water mark is the last offset + 1. The case
+// handed to Coq is that sequential script with the observations of the concurrent run.
+func concurrentYieldCase(r *rand.Rand) (string, cf.Sidecar) {
+	g := 2 + r.Intn(15)
+	per := 1 + r.Intn(maxYields/g)
+	start := int64(r.Intn(1000))
+	if r.Intn(4) == 0 {
+		start = mocks.AnyOffset
+	}
+	k := ckey{r.Intn(3), int32(r.Intn(3))}
+	rep := &reporter{}
+	cfg := sarama.NewConfig()
+	cfg.ChannelBufferSize = consumerBuf
+	c := mocks.NewConsumer(rep, cfg)
+	h := c.ExpectConsumePartition(topicName(k.T), k.P, start)
+	consumeOff := start
+	if start == mocks.AnyOffset {
+		consumeOff = int64(r.Intn(1000))
+	}
+	acts := []cact{{Op: "expect", T: k.T, P: k.P, Off: start}, {Op: "consume", T: k.T, P: k.P, Off: consumeOff}}
+	obs := []cobs{{Obs: "ONone"}, {Obs: "(OConsume 0)"}}
+	var mon *cf.Monitor
+	if _, err := c.ConsumePartition(topicName(k.T), k.P, consumeOff); err != nil {
+		obs[1].Obs = "(OConsume (-999))"
+	}
+	ok := watchdog(func() {
+		var wg sync.WaitGroup
+		gate := make(chan struct{})
+		for gi := 0; gi < g; gi++ {
+			wg.Add(1)
+			go func(gi int) {
+				defer wg.Done()
+				<-gate
+				for j := 0; j < per; j++ {
+					id := int64(gi*per + j + 1)
+					h.YieldMessage(&sarama.ConsumerMessage{Value: []byte(strconv.FormatInt(id, 10)), Topic: "unset", Partition: -7, Offset: -9})
+				}
+			}(gi)
+		}
+		close(gate)
+		wg.Wait()
+	})
+	if !ok {
+		mon = &cf.Monitor{Signature: "consumer:hang", What: "concurrent YieldMessage callers blocked although the yields stay below the channel buffer size"}
+	}
+	n := g * per
+	prev := int64(-1 << 62)
+	seen := map[int64]bool{}
+	for i := 0; i < n && ok; i++ {
+		select {
+		case m := <-h.Messages():
+			id, _ := strconv.ParseInt(string(m.Value), 10, 64)
+			acts = append(acts, cact{Op: "yieldmsg", T: k.T, P: k.P, ID: id})
+			obs = append(obs, cobs{Obs: "ONone"})
+			acts = append(acts, cact{Op: "readmsg", T: k.T, P: k.P})
+			obs = append(obs, cobs{Obs: cf.App("OMsg", cf.Z(id), cf.Z(topicIdx(m.Topic)), cf.Z(int64(m.Partition)), cf.Z(m.Offset))})
+			if i > 0 && m.Offset != prev+1 && mon == nil {
+				mon = &cf.Monitor{Signature: "consumer:offsets-not-consecutive", What: fmt.Sprintf("%d concurrent yielders x %d messages on %s/%d: delivery %d has offset %d after offset %d", g, per, topicName(k.T), k.P, i, m.Offset, prev)}
+			}
+			if seen[id] && mon == nil {
+				mon = &cf.Monitor{Signature: "consumer:yield-delivered-twice", What: fmt.Sprintf("message %d was delivered twice", id)}
+			}
+			seen[id] = true
+			prev = m.Offset
+		default:
+			if mon == nil {
+				mon = &cf.Monitor{Signature: "consumer:yield-lost", What: fmt.Sprintf("%d concurrent yielders x %d messages: only %d of %d yielded messages were delivered", g, per, i, n)}
+			}
+			i = n
+		}
+	}
+	acts = append(acts, cact{Op: "hwm", T: k.T, P: k.P})
+	obs = append(obs, cobs{Obs: cf.App("OHwm", cf.Z(h.HighWaterMarkOffset()))})
+	if len(rep.snapshot()) > 0 && mon == nil {
+		mon = &cf.Monitor{Signature: "consumer:spurious-report", What: fmt.Sprintf("concurrent yielders: the reporter was called: %v", rep.snapshot())}
+	}
+	s := cscript{Mode: "consumer-concurrent-yield", Acts: acts}
+	var as, os []string
+	for i, a := range acts {
+		as = append(as, coqAct(a))
+		os = append(os, fmt.Sprintf("(%s, %s)", obs[i].Obs, cf.List(obs[i].Reports)))
+	}
+	term := fmt.Sprintf("{| cc_acts := %s; cc_obs := %s |}", cf.List(as), cf.List(os))
+	return term, cf.Sidecar{Case: map[string]interface{}{"script": s, "observed": obs, "yielders": g, "per_yielder": per}, Kind: "consumer-concurrent-yield", Nontrivial: n >= 2, Monitor: mon}
+}
+
+// stressYieldCase: 16 yielders x 1500 messages against a concurrent reader (the channel buffer fills, yielders block in
+// the send). The monitor looks at every delivery; the Coq case is the linearisation of the first 20 deliveries.
+func stressYieldCase(r *rand.Rand) (string, cf.Sidecar) {
+	const g, per, shown = 16, 1500, 20
+	start := int64(r.Intn(1000))
+	k := ckey{r.Intn(3), int32(r.Intn(3))}
+	rep := &reporter{}
+	cfg := sarama.NewConfig()
+	cfg.ChannelBufferSize = 1 + r.Intn(consumerBuf)
+	c := mocks.NewConsumer(rep, cfg)
+	h := c.ExpectConsumePartition(topicName(k.T), k.P, start)
+	acts := []cact{{Op: "expect", T: k.T, P: k.P, Off: start}, {Op: "consume", T: k.T, P: k.P, Off: start}}
+	obs := []cobs{{Obs: "ONone"}, {Obs: "(OConsume 0)"}}
+	if _, err := c.ConsumePartition(topicName(k.T), k.P, start); err != nil {
+		obs[1].Obs = "(OConsume (-999))"
+	}
+	var mon *cf.Monitor
+	type del struct {
+		id, off int64
+		t       string
+		p       int32
+	}
+	var got []del
+	ok := watchdog(func() {
+		var wg sync.WaitGroup
+		for gi := 0; gi < g; gi++ {
+			wg.Add(1)
+			go func(gi int) {
+				defer wg.Done()
+				for j := 0; j < per; j++ {
+					id := int64(gi*per + j + 1)
+					h.YieldMessage(&sarama.ConsumerMessage{Value: []byte(strconv.FormatInt(id, 10)), Topic: "unset", Partition: -7, Offset: -9})
+				}
+			}(gi)
+		}
+		for i := 0; i < g*per; i++ {
+			m := <-h.Messages()
+			id, _ := strconv.ParseInt(string(m.Value), 10, 64)
+			got = append(got, del{id, m.Offset, m.Topic, m.Partition})
+		}
+		wg.Wait()
+	})
+	if !ok {
+		mon = &cf.Monitor{Signature: "consumer:hang", What: "16 concurrent YieldMessage callers against a reader: not every yielded message was delivered within 5 s"}
+	}
+	for i, d := range got {
+		if i > 0 && d.off != got[i-1].off+1 && mon == nil {
+			mon = &cf.Monitor{Signature: "consumer:offsets-not-consecutive", What: fmt.Sprintf("%d concurrent yielders x %d messages against a reader (buffer %d): delivery %d has offset %d after offset %d", g, per, cfg.ChannelBufferSize, i, d.off, got[i-1].off)}
+		}
+		if i < shown {
+			acts = append(acts, cact{Op: "yieldmsg", T: k.T, P: k.P, ID: d.id}, cact{Op: "readmsg", T: k.T, P: k.P})
+			obs = append(obs, cobs{Obs: "ONone"}, cobs{Obs: cf.App("OMsg", cf.Z(d.id), cf.Z(topicIdx(d.t)), cf.Z(int64(d.p)), cf.Z(d.off))})
+		}
+	}
+	if ok && mon == nil && len(got) > 0 && h.HighWaterMarkOffset() != got[len(got)-1].off+1 {
+		mon = &cf.Monitor{Signature: "consumer:hwm", What: fmt.Sprintf("after %d yields the last delivered offset is %d but the high-water mark is %d", g*per, got[len(got)-1].off, h.HighWaterMarkOffset())}
+	}
+	s := cscript{Mode: "consumer-concurrent-yield-stress", Acts: acts}
+	var as, os []string
+	for i, a := range acts {
+		as = append(as, coqAct(a))
+		os = append(os, fmt.Sprintf("(%s, %s)", obs[i].Obs, cf.List(obs[i].Reports)))
+	}
+	term := fmt.Sprintf("{| cc_acts := %s; cc_obs := %s |}", cf.List(as), cf.List(os))
+	return term, cf.Sidecar{Case: map[string]interface{}{"script": s, "observed": obs, "yielders": g, "per_yielder": per, "buffer": cfg.ChannelBufferSize}, Kind: "consumer-concurrent-yield", Nontrivial: true, Monitor: mon}
 }
